@@ -457,10 +457,15 @@ class RSocketBase(RSocket, RSocketInternal):
         logger().debug('%s: Cleanup', self._log_identifier())
 
         self._is_closing = True
-        await cancel_if_task_exists(self._sender_task)
-        self._sender_task = None
-        await cancel_if_task_exists(self._receiver_task)
-        self._receiver_task = None
+        sender_task, receiver_task = self._sender_task, self._receiver_task
+
+        await cancel_if_task_exists(sender_task)
+        if self._sender_task is sender_task:  # a reconnect may have started new tasks meanwhile
+            self._sender_task = None
+
+        await cancel_if_task_exists(receiver_task)
+        if self._receiver_task is receiver_task:
+            self._receiver_task = None
 
     async def _close_transport(self):
         if self._current_transport().done():
